@@ -54,8 +54,8 @@ def make_check(op):
                     raise Violation("result_shape", f"result shape {o.shape} != reference {np.shape(w)}; {ctx}")
         # float32 vs float64 agreement
         try:
-            if mixed:
-                raise RuntimeError("skip")
+            if mixed or any(args.get("offset", [])):
+                raise RuntimeError("skip")      # (offset batch-norm data is sized for the case's dtype only)
             out2 = op.apply(ops.leaves(case, dtype=other), args)
             outs2 = list(out2) if isinstance(out2, (tuple, list)) else [out2]
             for o, o2 in zip(outs, outs2):
